@@ -119,7 +119,10 @@ func VerifH_C20_Filters() {
 	lite := vrt.Param("lite", 0) == 1
 	aT, aS := cf("a", false)
 	a1T, _ := cf("a1", aS)
-	a2T, _ := cf("a2", aS)
+	a2T := "" // a second leaf beside a1: fixed in the lite variant
+	if !lite {
+		a2T, _ = cf("a2", aS)
+	}
 	a3T, a3S := cf("a3", aS)
 	a31T, _ := cf("a31", a3S)
 	a4T := ""
@@ -128,6 +131,7 @@ func VerifH_C20_Filters() {
 	}
 	lT, lS := cf("l", false)
 	vT, _ := cf("v", lS)
+	kT, _ := cf("k", lS) // (this compiler accepts a state key in a configuration list)
 	tT, _ := cf("t", false)
 	chT, chS := "", false
 	if !lite {
@@ -138,7 +142,7 @@ func VerifH_C20_Filters() {
 	text := "module m { namespace 'urn:m'; prefix m; " +
 		"container a {" + aT + " leaf a1 { type string;" + a1T + " } leaf a2 { type string;" + a2T + " } " +
 		"container a3 {" + a3T + " leaf a31 { type string;" + a31T + " } } leaf a4 { type string;" + a4T + " } } " +
-		"list l { key k; unique \"v\";" + lT + " leaf k { type string; } leaf v { type string;" + vT + " } } " +
+		"list l { key k; unique \"v\";" + lT + " leaf k { type string;" + kT + " } leaf v { type string;" + vT + " } } " +
 		"leaf t { type string;" + tT + " } " +
 		"choice ch {" + chT + " default ca; case ca { leaf x { type string;" + xT + " } } case cb { leaf y { type string;" + yT + " } } } }"
 	fi := vrt.Choice("filter", len(c20Filters))
